@@ -2,6 +2,7 @@ import SJ.Spec.Schema
 import SJ.Spec.Program
 import SJ.Spec.Utf8
 import SJ.Spec.WF
+import SJ.Spec.Image
 import SJ.Model.Ser
 /-!
 # The serializer side of the typed universe: what `Serialize` does for a typed value (C04, typed clause)
@@ -185,7 +186,7 @@ def wfTV : Schema → TVal → Bool
   | .struct_ fs _, v => match v with | .struct_ xs => namesOK (fs.map (·.1)) && wfFields fs xs | _ => false
   | .enum_ vs, v => match v with | .variant i p => namesOK (vs.map (·.1)) && wfVariant vs i p | _ => false
   | .ignored, _ => false
-  | .any, v => match v with | .any _ => true | _ => false
+  | .any, v => match v with | .any j => Spec.Image.valueLitsOK j | _ => false
 def wfTuple : List Schema → List TVal → Bool
   | s :: ss, xs => match xs with | x :: xs' => wfTV s x && wfTuple ss xs' | [] => false
   | [], xs => xs.isEmpty
